@@ -10,6 +10,8 @@ import (
 	"hash/fnv"
 	"io"
 	"math/rand"
+	"os"
+	"path/filepath"
 	"sort"
 	"strings"
 	"unicode/utf8"
@@ -588,6 +590,21 @@ func (r *Runner) Do(idx int, s Step) *Mismatch {
 		if err := r.Env.Drain(); err != nil {
 			return r.mism(idx, s, "", "drain-failed", "ok", fmt.Sprint(err))
 		}
+	case "otherdb":
+		// a second, fresh database is opened, written to and closed in the same process (for
+		// the gRPC mode: in the server's process); nothing of it concerns this database
+		dir := filepath.Join(r.Env.Opt.Dir, fmt.Sprintf("other-db-%d", idx))
+		od, err := dbx.Open(dbx.Options{Mode: dbx.Inline, Dir: dir})
+		if err != nil {
+			return r.mism(idx, s, "", "other-database-open-failed", "ok", fmt.Sprint(err))
+		}
+		err = od.DB.Set(ctx, "other", []byte("x"))
+		od.Close()
+		os.RemoveAll(dir)
+		if err != nil {
+			return r.mism(idx, s, "", "other-database-set-failed", "ok", fmt.Sprint(err))
+		}
+		r.Stats.OpClass["otherdb/auto/ok"]++
 	case "reopen":
 		if err := r.Env.Reopen(); err != nil {
 			return r.mism(idx, s, "", "reopen-failed", "ok", fmt.Sprint(err))
